@@ -20,11 +20,21 @@ import (
 	"time"
 )
 
-const (
-	verifDir = "/verif"
-	repoDir  = "/repo"
-	modPath  = "github.com/aml-org/amf-custom-validator"
+const modPath = "github.com/aml-org/amf-custom-validator"
+
+// The registered commands run in /verif against /repo. VERIF_DIR / VERIF_REPO exist only so that a background
+// run (`vp run --with-repo`) can work on its own snapshots without being disturbed by edits.
+var (
+	verifDir = envOr("VERIF_DIR", "/verif")
+	repoDir  = envOr("VERIF_REPO", "/repo")
 )
+
+func envOr(k, d string) string {
+	if v := os.Getenv(k); v != "" {
+		return v
+	}
+	return d
+}
 
 type Violation struct {
 	Sig    string          `json:"sig"`
@@ -671,7 +681,7 @@ func racePass(tier, cache, work string, wenv []string) ([]Violation, string, err
 		return nil, "", fmt.Errorf("racepass did not finish:\n%s", tail(out, 3000))
 	}
 	blocks := strings.Split(out, "WARNING: DATA RACE")
-	frameRe := regexp.MustCompile(`/repo/((?:internal|pkg|cmd/commands)/[^\s:]+\.go):\d+`)
+	frameRe := regexp.MustCompile(regexp.QuoteMeta(repoDir) + `/((?:internal|pkg|cmd/commands)/[^\s:]+\.go):\d+`)
 	seen := map[string]bool{}
 	var vs []Violation
 	for _, b := range blocks[1:] {
